@@ -54,38 +54,75 @@ func (t *c11Task) errf(format string, a ...any) error {
 
 var c11TaskCondRank = map[string]int{"CHasPre": 0, "CNotSkip": 1, "CHasPost": 2, "CTaskErr": 3, "CCallErr": 4}
 
+func c11TaskNot(c string) string {
+	if strings.HasPrefix(c, "(CNot ") && strings.HasSuffix(c, ")") {
+		return strings.TrimSuffix(strings.TrimPrefix(c, "(CNot "), ")")
+	}
+	return "(CNot " + c + ")"
+}
+
+func c11TaskRank(c string) int {
+	for strings.HasPrefix(c, "(CNot ") {
+		c = strings.TrimSuffix(strings.TrimPrefix(c, "(CNot "), ")")
+	}
+	if r, ok := c11TaskCondRank[c]; ok {
+		return r
+	}
+	return 9
+}
+
 func (t *c11Task) cond(e ast.Expr) (string, bool) {
 	switch x := e.(type) {
 	case *ast.ParenExpr:
 		return t.cond(x.X)
 	case *ast.UnaryExpr:
-		if x.Op == token.NOT && c11Sq(x.X) == t.task+".skipPreHandler" {
-			return "CNotSkip", true
+		if x.Op == token.NOT {
+			if c11Sq(x.X) == t.task+".skipPreHandler" {
+				return "CNotSkip", true
+			}
+			if c, ok := t.cond(x.X); ok {
+				return c11TaskNot(c), true
+			}
+		}
+	case *ast.SelectorExpr:
+		if c11Sq(x) == t.task+".skipPreHandler" {
+			return "(CNot CNotSkip)", true
 		}
 	case *ast.BinaryExpr:
-		if x.Op == token.LAND {
+		if x.Op == token.LAND || x.Op == token.LOR {
 			a, ok1 := t.cond(x.X)
 			b, ok2 := t.cond(x.Y)
 			if !ok1 || !ok2 {
 				return "", false
 			}
-			ra, oka := c11TaskCondRank[a]
-			rb, okb := c11TaskCondRank[b]
-			if oka && okb && rb < ra {
+			if x.Op == token.LOR { // a || b = !(!a && !b); the tests have no effects
+				a, b = c11TaskNot(a), c11TaskNot(b)
+			}
+			if c11TaskRank(b) < c11TaskRank(a) {
 				a, b = b, a // tests without effects: fixed order
+			}
+			if x.Op == token.LOR {
+				return c11TaskNot("(CBoth " + a + " " + b + ")"), true
 			}
 			return "(CBoth " + a + " " + b + ")", true
 		}
-		if x.Op == token.NEQ && c11IsNil(x.Y) {
+		if (x.Op == token.NEQ || x.Op == token.EQL) && c11IsNil(x.Y) {
+			atom := ""
 			switch c11Sq(x.X) {
 			case t.task + ".call.preProcessor":
-				return "CHasPre", true
+				atom = "CHasPre"
 			case t.task + ".call.postProcessor":
-				return "CHasPost", true
+				atom = "CHasPost"
 			case t.task + ".err":
-				return "CTaskErr", true
+				atom = "CTaskErr"
 			case "err":
-				return "CCallErr", true
+				atom = "CCallErr"
+			}
+			if atom != "" {
+				if x.Op == token.EQL {
+					return c11TaskNot(atom), true
+				}
+				return atom, true
 			}
 		}
 	}
@@ -243,7 +280,13 @@ func c11ExtractStateTask(repo string) (string, string, error) {
 	ts := &c11Task{fn: "taskManager.submit"}
 	var submit []string
 	seenLoop := false
-	for _, s := range sub.Body.List {
+	relevant := func(n ast.Node) bool { return (&c11Task{}).mentions(n) }
+	gm := []string{"compose", "graph_manager.go"}
+	subBody, _, err := c11Prepare(repo, gm, sub, relevant, c11NormOpts{mergeIfs: true})
+	if err != nil {
+		return "", "", ts.errf("%v", err)
+	}
+	for _, s := range subBody {
 		rs, ok := s.(*ast.RangeStmt)
 		if ok && !seenLoop && c11Ident(rs.X) == "tasks" && c11Ident(rs.Value) != "" {
 			probe := &c11Task{task: c11Ident(rs.Value)}
@@ -271,7 +314,11 @@ func c11ExtractStateTask(repo string) (string, string, error) {
 	}
 	te := &c11Task{fn: "taskManager.executor", task: exe.Type.Params.List[0].Names[0].Name}
 	var execp []string
-	for _, s := range exe.Body.List {
+	exeBody, _, err := c11Prepare(repo, gm, exe, relevant, c11NormOpts{mergeIfs: true})
+	if err != nil {
+		return "", "", te.errf("%v", err)
+	}
+	for _, s := range exeBody {
 		if _, ok := s.(*ast.DeferStmt); ok {
 			continue // the hand-over of the finished task (C03)
 		}
@@ -290,8 +337,12 @@ func c11ExtractStateTask(repo string) (string, string, error) {
 		return "", "", fmt.Errorf("method taskManager.waitOne not found")
 	}
 	tw := &c11Task{fn: "taskManager.waitOne", isWait: true}
+	woBody, _, err := c11Prepare(repo, gm, wo, relevant, c11NormOpts{mergeIfs: true})
+	if err != nil {
+		return "", "", tw.errf("%v", err)
+	}
 	last := -1
-	for i, s := range wo.Body.List {
+	for i, s := range woBody {
 		if es, ok := s.(*ast.ExprStmt); ok && c11Sq(es.X) == "t.mu.Unlock()" {
 			last = i
 		}
@@ -303,12 +354,12 @@ func c11ExtractStateTask(repo string) (string, string, error) {
 	if last < 0 || tw.task == "" {
 		return "", "", tw.errf("`ta := <-t.done` … `t.mu.Unlock()` not found")
 	}
-	for _, s := range wo.Body.List[:last] {
+	for _, s := range woBody[:last] {
 		if strings.Contains(c11StmtText(s), "Processor") || strings.Contains(c11StmtText(s), "runWrapper") {
 			return "", "", tw.errf("a handler is touched before the task has been received")
 		}
 	}
-	collect, err := tw.stmts(wo.Body.List[last+1:])
+	collect, err := tw.stmts(woBody[last+1:])
 	if err != nil {
 		return "", "", err
 	}
